@@ -203,10 +203,17 @@ def run(ck, tier):
     for p in cx.enum(init, cls, max_depth=0):
         st = annotate(p, heap=True)
         socket = None
-        for e in p.ev:
+        for i, e in enumerate(p.ev):
             if e.kind == 'cond' and isinstance(e._sub, ast.Call) and callee_name(e._sub) == 'isinstance' and len(e._sub.args) == 2 \
                     and U(e._sub.args[1]) == 'ModbusSocketFramer':
                 socket = e.a
+                # the test must see the framer the protocol is going to use: no later rebinding of the tested attribute
+                tested = U(e.node.args[0]) if isinstance(e.node, ast.Call) and e.node.args else None
+                late = [x for x in p.ev[i + 1:] if x.kind == 'assign' and tested and U(x.a) == tested]
+                ck.ob('R7', init.qn, 'the framer tested for the manager selection is the final framer object', not late,
+                      detail='framer-rebound-after-selection', loc=cx.floc(init, late[0].node) if late else cx.floc(init),
+                      message='%s is assigned again after the transaction manager was chosen by isinstance(%s, ModbusSocketFramer): '
+                              'a framer passed as a class is tested before it is instantiated and gets the FIFO manager' % (tested, tested))
         v = st.heap.get('self.transaction')
         if socket is not None and isinstance(v, ast.Call):
             sel.setdefault(socket, set()).add(U(v.func))
